@@ -31,8 +31,18 @@ PID = "C14"
 MODULES = ["OpacusLean.Props.C14"]
 THEOREMS = [
     "Opacus.C14.head_split_merge_roundtrip",
+    "Opacus.C14.mha_refines_spec_seq_first",
+    "Opacus.C14.mha_refines_spec_batch_first_repaired",
+    "Opacus.C14.avg_weights_eq",
+    "Opacus.C14.mergeHeadsBFCoded_apply",
+    "Opacus.C14.batch_first_merge_single_head_partial",
+    "Opacus.C14.batch_first_merge_single_target_partial",
+    "Opacus.C14.batch_first_single_head_partial",
+    "Opacus.C14.batch_first_mask_square_partial",
+    "Opacus.C14.mask_shape_rejected",
     "Opacus.C14.batch_first_merge_counterexample",
     "Opacus.C14.batch_first_mask_rejected_counterexample",
+    "Opacus.C14.kpm_float_rejected_counterexample",
 ]
 RULE = (
     "case = (num_heads h, head_dim d, bias, add_bias_kv, add_zero_attn, kdim, vdim, batch_first, L, S, B, attn_mask kind+shape, "
